@@ -71,7 +71,10 @@ type Event struct {
 	Out  int    `json:"out"`
 }
 
-var entryNames = []string{"query", "first", "exists", "match", "eom", "string", "parse"}
+var entryNames = []string{"query", "first", "exists", "match", "eom", "string", "parse", "query2v", "realias"}
+
+// realiasTexts are parsed into a second handle on a shared Path's AST.
+var realiasTexts = []string{`strict $."zz"[*]?(@ > 2)`, `$."zz"`, `(1 == 2)`}
 
 type driver struct {
 	pool   Pool
@@ -134,6 +137,34 @@ func (d *driver) do(k int, p *path.Path) int {
 			}
 			txt = wire.Bytes(q.String())
 		}()
+	case "realias":
+		// A second handle on the same parsed AST is made to hold another path
+		// (UnmarshalText / Scan / UnmarshalBinary); the shared Path must not
+		// notice. The outcome is the text the second handle prints afterwards.
+		o = wire.EntryObs{Items: []wire.Value{}, Err: wire.Err{Cls: "none"}}
+		func() {
+			defer func() {
+				if recover() != nil {
+					o.Err = wire.Err{Cls: "panic"}
+				}
+			}()
+			alias := path.New(p.AST)
+			text := realiasTexts[k%len(realiasTexts)]
+			var err error
+			switch k % 3 {
+			case 0:
+				err = alias.UnmarshalText([]byte(text))
+			case 1:
+				err = alias.Scan(text)
+			default:
+				err = alias.UnmarshalBinary([]byte(text))
+			}
+			if err != nil {
+				o.Err = wire.Err{Cls: "invalid"}
+				return
+			}
+			txt = wire.Bytes(alias.String())
+		}()
 	default:
 		var vars exec.Vars
 		if c.VI > 0 {
@@ -148,6 +179,17 @@ func (d *driver) do(k int, p *path.Path) int {
 			if n == call.Entry {
 				e = i
 			}
+		}
+		if call.Entry == "query2v" {
+			// Query with two WithVars options: the last one wins; it is a copy of
+			// the shared map with one more variable, so the call means the same,
+			// and the shared map (the first option) must stay as it is
+			e = 0
+			extra := exec.Vars{"zz": float64(1)}
+			for name, v := range vars {
+				extra[name] = v
+			}
+			pr.Opts = append(pr.Opts, exec.WithVars(extra))
 		}
 		o = pr.One(pr.Base, run.Call(e), d.known)
 	}
@@ -277,7 +319,10 @@ func main() {
 		}
 		for _, silent := range []bool{false, true} {
 			for _, e := range entryNames {
-				if silent && (e == "string" || e == "parse") {
+				if silent && (e == "string" || e == "parse" || e == "realias") {
+					continue
+				}
+				if e == "query2v" && c.VI == 0 {
 					continue
 				}
 				d.calls = append(d.calls, CallRow{PI: c.PI, DI: c.DI, VI: c.VI, Lax: c.Lax, Silent: silent, UseTZ: c.UseTZ, Zone: c.Zone, Entry: e})
@@ -316,6 +361,16 @@ func main() {
 					firstOf[key] = k
 				}
 			}
+		}
+	}
+	// ... and Query on every document of every (path, mode): index 100 + DI
+	for k, c := range d.calls {
+		if c.Entry == "query" && !c.Silent {
+			lx := 0
+			if c.Lax {
+				lx = 1
+			}
+			firstOf[[3]int{c.PI, lx, 100 + c.DI}] = k
 		}
 	}
 	var keys [][3]int
